@@ -155,10 +155,19 @@ func (vc *VC) Unsupported(s string) {
 func (vc *VC) Query(prelude string, o *Obligation) string {
 	var b strings.Builder
 	b.WriteString(prelude)
+	var body strings.Builder
 	for _, l := range vc.lines[:o.Prefix] {
-		b.WriteString(l)
-		b.WriteByte('\n')
+		body.WriteString(l)
+		body.WriteByte('\n')
 	}
+	bs := body.String()
+	for _, sa := range vc.reg.symAxioms {
+		if strings.Contains(bs, sa[0]) || strings.Contains(o.Goal, sa[0]) {
+			b.WriteString(sa[1])
+			b.WriteByte('\n')
+		}
+	}
+	b.WriteString(bs)
 	if o.IsCover {
 		fmt.Fprintf(&b, "(assert %s)\n(check-sat)\n", o.Goal)
 	} else {
